@@ -101,12 +101,11 @@ Definition holds (c : case) : bool :=
 
 (* finding class 1 (fixed by c928ba99): the observed results are exactly those of the old code
    (key stored on the shared signer object) and not those of the current one.
-   finding class 2 (fixed by ca0d12ee): the entities hold exactly the certificates the OLD loader gives them (a
-   configuration file answered by the module of the same base name loaded from another directory) and not those of
-   the current one.
-   finding class 3 (open, C20-F3): the entities hold exactly the certificates the CURRENT loader gives them and the
-   script asks for a configuration file that does not exist (by c20_source_own_key the current loader can fail
-   own_source in no other way) *)
+   finding class 3 (fixed by 581b4f03): the entities hold exactly the certificates the loader BEFORE that commit gives
+   them (a configuration file that does not exist answered by another directory's module) and not those of the
+   current one.
+   finding class 2 (fixed by ca0d12ee): ... exactly the certificates the loader before ca0d12ee gives them (a
+   configuration file answered by the module of the same base name loaded from another directory) *)
 Definition cls (c : case) : nat :=
   let o := c_obs c in let ks := s_certs (c_set c) in
   if same_outs (outs_x ks (mfinal_v0 c)) (o_outs o) && negb (same_outs (outs_x ks (mfinal c)) (o_outs o))
@@ -114,8 +113,9 @@ Definition cls (c : case) : nat :=
   else match s_src (c_set c) with
        | None => 0
        | Some d =>
-           if list_eqb Nat.eqb (deploy_certs_v0 d) (o_certs o) && negb (list_eqb Nat.eqb (deploy_certs d) (o_certs o)) then 2
-           else if list_eqb Nat.eqb (deploy_certs d) (o_certs o) && negb (files_present d) then 3
+           if list_eqb Nat.eqb (deploy_certs d) (o_certs o) then 0
+           else if list_eqb Nat.eqb (deploy_certs_v1 d) (o_certs o) then 3
+           else if list_eqb Nat.eqb (deploy_certs_v0 d) (o_certs o) then 2
            else 0
        end.
 
@@ -124,8 +124,8 @@ Definition run := run_cases agrees holds cls.
 Definition explain (c : case) :=
   (outs_x (s_certs (c_set c)) (mfinal c), trace (mfinal c), finished tsig (mfinal c),
    (keys (c_in c), s_keys (c_set c), s_certs (c_set c)), outs_x (s_certs (c_set c)) (mfinal_v0 c), holds c,
-   match s_src (c_set c) with Some d => (accounted d, published d, deploy_certs_v0 d, files_present d, no_reedit d)
-                            | None => ([], [], [], true, true) end).
+   match s_src (c_set c) with Some d => (accounted d, published d, (deploy_certs_v1 d, deploy_certs_v0 d), bare_present d, no_reedit d)
+                            | None => ([], [], ([], []), true, true) end).
 
 (* Cases run with line- or bytecode-granular scheduling points (sys.settrace in the workers): those
    points are not named by the model, so only the results are compared.  By c20_complete_results the
